@@ -46,6 +46,9 @@ pub enum SFault {
     Special { file: String, which: String },
     /// overwrite public-input felt(s) of the template stored in `file`
     EditPi { file: String, edits: Vec<(usize, u64)> },
+    /// both verifier artifacts of a family (leaf | private | public) replaced by the SAME circuit built
+    /// under another circuit configuration
+    OtherConfig { family: String },
 }
 
 impl SFault {
@@ -64,6 +67,7 @@ impl SFault {
             SFault::Config { .. } => "config_variant",
             SFault::Special { .. } => "misdirected_real_proof",
             SFault::EditPi { .. } => "edited_public_inputs",
+            SFault::OtherConfig { .. } => "other_circuit_config",
         }
     }
     pub fn file(&self) -> String {
@@ -71,6 +75,7 @@ impl SFault {
             SFault::BitFlip { file, .. } | SFault::Truncate { file, .. } | SFault::Extend { file, .. } | SFault::ZeroFill { file, .. } | SFault::Torn { file, .. } | SFault::Lost { file, .. } | SFault::Misdirect { file, .. } | SFault::Missing { file } | SFault::Oversize { file, .. } | SFault::Special { file, .. } | SFault::EditPi { file, .. } => file.clone(),
             SFault::ExtraProver { name, .. } => name.clone(),
             SFault::Config { .. } => "config.json".into(),
+            SFault::OtherConfig { family } => format!("{family}-pair"),
         }
     }
 }
@@ -261,6 +266,18 @@ pub fn apply_fault(dir: &Path, gi: usize, f: &SFault, refs: &Refs, rng: &mut Rng
         }
         SFault::Special { file, which } => {
             std::fs::write(p(file), &refs.specials[which]).unwrap();
+        }
+        SFault::OtherConfig { family } => {
+            let g = &refs.gens[gi];
+            let (key, cf, vf) = match family.as_str() {
+                "leaf" => ("othercfg_leaf".to_string(), "common.bin", "verifier.bin"),
+                "private" => (format!("othercfg_private_n{}", g.n), "private_batch_common.bin", "private_batch_verifier.bin"),
+                _ => (format!("othercfg_public_n{}_m{}", g.n, g.m.unwrap_or(0)), "public_batch_common.bin", "public_batch_verifier.bin"),
+            };
+            if let (Some(c), Some(v)) = (refs.specials.get(&format!("{key}_common")), refs.specials.get(&format!("{key}_verifier"))) {
+                std::fs::write(p(cf), c).unwrap();
+                std::fs::write(p(vf), v).unwrap();
+            }
         }
         SFault::EditPi { file, edits } => {
             let g = &refs.gens[gi];
@@ -558,6 +575,11 @@ pub fn c17_enumeration(refs: &Refs) -> Vec<LoadCase> {
         cases.push(LoadCase { gen: gi, faults: vec![], loader: loader.to_string(), io_plan: vec![], fseed: 1 });
         cases.push(LoadCase { gen: gi, faults: prover_poison(), loader: loader.to_string(), io_plan: vec![], fseed: 1 });
         let cap = if loader.starts_with("load_leaf_verifier") { VERIFIER_CAP } else { AGG_CAP };
+        for (family, marker) in [("leaf", "common.bin"), ("private", "private_batch_common.bin"), ("public", "public_batch_common.bin")] {
+            if loader_reads(loader).contains(&marker) {
+                cases.push(LoadCase { gen: gi, faults: vec![SFault::OtherConfig { family: family.into() }], loader: loader.to_string(), io_plan: vec![], fseed: 1 });
+            }
+        }
         for file in loader_reads(loader) {
             if *file == "config.json" {
                 for f in config_faults() {
